@@ -163,6 +163,13 @@ func validateInputTypeCompatibility(
 	inputs []Type,
 	handler reflect.Value,
 ) error {
+	// The handler must be a non-nil function; reflect would panic on anything else.
+	if !handler.IsValid() || handler.Kind() != reflect.Func {
+		return fmt.Errorf("handler must be a function")
+	}
+	if handler.IsNil() {
+		return fmt.Errorf("handler is a nil function")
+	}
 	// Validate the input types match the provided ones.
 	specifiedParams := len(inputs)
 	actualParams := handler.Type().NumIn()
